@@ -390,6 +390,7 @@ def check_dispatch(m, f, enums, rule):
 def check_find(m, f, rule):
     pv = Prover(f)
     bad = []
+    notes = []
     cmps = [c for c in f.all_insts() if c.op == 'call' and c.callee is None and c.x.get('fty') == CMP_FTY]
     if len(cmps) != 1:
         rule.undecided('cstl_raw_array_find', '%d comparison sites' % len(cmps), floc(m, f))
@@ -411,7 +412,21 @@ def check_find(m, f, rule):
         if not below and start and step and ('ne', ii.ref, '$1') in pv.facts_at(c):
             below = True      # counting up from 0 by 1 and stopping exactly at count never passes it
         if not below:
-            bad.append('the element read is not under index < count')
+            # the loop may be bounded by a second counter running down from count next to the index (`left`): relating the two
+            # needs a relational invariant (index + left == count) -- no verdict on the bound then, the result clause still decided
+            from ..ir import unit_step as _us
+            uses_ii = any(i2.op == 'icmp' and ii.ref in [_strip_ext(f, o) for o in i2.o] for i2 in f.all_insts())
+            other = False
+            for i2 in f.all_insts():
+                if i2.op == 'icmp' and not uses_ii:
+                    for o in i2.o:
+                        oi = f.get(_strip_ext(f, o)) if isinstance(o, str) else None
+                        if oi is not None and oi.op == 'phi' and oi is not ii and '$1' in oi.o and any(isinstance(x, str) and _us(f, x) == (oi.ref, -1) for x in oi.o):
+                            other = True
+            if other:
+                notes.append('NOT DECIDED: the loop is bounded by a second counter running down from count')
+            else:
+                bad.append('the element read is not under index < count')
     for r in f.returns():
         for lf, facts_ok in _ret_leaves_with_facts(f, r, pv, c, idx):
             if not facts_ok:
@@ -419,7 +434,7 @@ def check_find(m, f, rule):
     if bad:
         rule.violation('cstl_raw_array_find', '; '.join(sorted(set(bad))), floc(m, f), {})
     else:
-        rule.ok('cstl_raw_array_find', 'ascending loop; returns i under cmp(i) == 0, else -1', floc(m, f))
+        rule.ok('cstl_raw_array_find', 'ascending loop; returns i under cmp(i) == 0, else -1' + ('; ' + notes[0] if notes else ''), floc(m, f))
 
 
 def _ret_leaves_with_facts(f, r, pv, cmpcall, idx):
